@@ -703,6 +703,19 @@ def column_loop_obligations(prog, rule, rel_, fnames):
     return out
 
 
+def as_augassign(node):
+    """`x = x + e`, `x = e + x`, `x = x * e`, `x = e * x`, `x = x - e`, `x = x / e` on a plain name, read as the update `x op= e` for
+    rules that classify updates of a running variable (the VALUE of x afterwards is the same; whether the old array object is
+    re-used is the ownership engine's question, which looks at the original statement)."""
+    if isinstance(node, ast.Assign) and len(node.targets) == 1 and isinstance(node.targets[0], ast.Name) and isinstance(node.value, ast.BinOp):
+        x, v = node.targets[0].id, node.value
+        if isinstance(v.left, ast.Name) and v.left.id == x and isinstance(v.op, (ast.Add, ast.Mult, ast.Sub, ast.Div)):
+            return ast.copy_location(ast.AugAssign(target=ast.Name(id=x, ctx=ast.Store()), op=v.op, value=v.right), node)
+        if isinstance(v.right, ast.Name) and v.right.id == x and isinstance(v.op, (ast.Add, ast.Mult)):
+            return ast.copy_location(ast.AugAssign(target=ast.Name(id=x, ctx=ast.Store()), op=v.op, value=v.left), node)
+    return node
+
+
 def _scalar_attr(prog, path):
     """The last attribute of the path is, in every class that assigns it in a constructor, a plain number (x.size, len(..), a literal,
     int(..) / float(..)): `n = obj.count; n += 1` re-binds a local and updates nothing."""
